@@ -2769,6 +2769,15 @@ def run(ctx):
                                       f"accessory's keys (Control-Write / Control-Read / Event labels) on {s.ident()}", True,
                                       **replay_payload(s, rec, None, dict(extra, glue="keys installed by the real transport code "
                                                                           "fail the functional check against accessory_keys"))))
+    # ---- extraction cross-check: a sample of the same requests evaluated by the Coq kernel's VM
+    if not ctx.get("replay"):
+        n_xc, xc_bad = vm_crosscheck(ctx, xc_sample(list(zip(lines, model_answers))))
+        cov.extra["vm_compute_crosscheck"] = {"requests": n_xc, "disagreements": len(xc_bad)}
+        if xc_bad:
+            viol.append(violation("extraction-vs-vm_compute",
+                                  f"the extracted driver and vm_compute disagree on {len(xc_bad)} of {n_xc} sampled requests "
+                                  f"(first: driver '{xc_bad[0]['driver']}', vm_compute {xc_bad[0]['vm_compute']})", False,
+                                  disagreements=xc_bad[:5]))
     cov.extra["exhaustive"] = True
     cov.extra["exhaustive_part"] = ("every single-bit flip of every byte of the honest M2 (IP; BLE bits 0 and 7; thorough: all "
                                "transports, all bits) and of M4, two substitutions per M2 byte, every signature transcript "
